@@ -79,10 +79,13 @@ def run(ctx):
                 hi = {"cell": 2, "branch": 5, "comp": 4}[lv] if sc == "local" else {"cell": 2, "branch": 5, "comp": n - 1}[lv]
                 py, cq = rng.choice(idx_forms(rng, hi))
                 # boolean masks: a mask whose length matches one dimension of the current view
-                if rng.random() < 0.12 and ok:
+                if rng.random() < 0.2 and ok:
                     try:
                         shp = list(view.shape) + [len(view.edges)]
                         L = rng.choice(shp)
+                        if rng.random() < 0.6:
+                            # one entry per item of THIS level in view: the mask is positional
+                            L = len(np.unique(view.nodes[f"global_{lv}_index"].to_numpy()))
                         if L > 0:
                             m = [rng.random() < 0.6 for _ in range(L)]
                             py, cq = np.asarray(m), "IMask [" + "; ".join("true" if x else "false" for x in m) + "]"
@@ -108,7 +111,7 @@ def run(ctx):
                 got_nodes = got_edges = loc = None
             if len(samples) < 3 and ok:
                 samples.append(dict(desc, nodes_in_view=got_nodes))
-            expr = (f"let t := {table} in match chain t (shape_of t {len(edges)} {drop}) (seq 0 {n}) [{'; '.join(chain_coq)}] with "
+            expr = (f"let t := {table} in match chain t (shape_of_e t {etab} {drop}) (seq 0 {n}) [{'; '.join(chain_coq)}] with "
                     f"| Some v => (1 :: v, (edges_in_view {etab} (seq 0 {len(edges)}) v, map (fun r => [local_index t v Cell r; local_index t v Branch r; local_index t v Comp r]) v)) "
                     f"| None => ([0], ([], [])) end")
             jobs.append((expr, got_nodes, got_edges, loc, desc, err))
